@@ -362,8 +362,11 @@ def run_check(prop, tier, seed):
         'assumptions': list(getattr(mod, 'ASSUMPTIONS', [])),
         'wall_s': timer.s(), 'violations': len(violations) + (0 if proof['ok'] else 1),
     }
-    os.makedirs(os.path.join(C.VERIF, 'evidence'), exist_ok=True)
-    with open(os.path.join(C.VERIF, 'evidence', prop + '.json'), 'w') as fh:
+    # evidence/<id>.json describes runs against /repo only; runs pointed at another checkout
+    # (VERIF_REPO, used for seeded changes) leave it alone and write next to the replays
+    evdir = os.path.join(C.VERIF, 'evidence') if os.path.realpath(C.REPO) == '/repo' else os.path.join(C.VERIF, 'replays', 'evidence-other-checkout')
+    os.makedirs(evdir, exist_ok=True)
+    with open(os.path.join(evdir, prop + '.json'), 'w') as fh:
         json.dump(ev, fh, indent=1, default=str)
     for ln in lines:
         print(ln)
